@@ -6,6 +6,7 @@ from ..index import AnalysisError, attr_chain, chain_prefixes, norm, own_nodes
 from ..query import (calls_in, call_name, is_value_yield, lines, mentions_all, falsy_edges,
                      assigns)
 from ..flow import backward_slice_mentions
+from .common import borrowed
 from .common import (TLSCONN, TLSREC, fin_summary, fin_local_gate, nodes_with_call, consumes_of,
                      getmsg_nodes, dead_edge_labels, effective_tests, tests_mentioning, must_pass,
                      senderror_desc)
@@ -533,4 +534,5 @@ RULES = [
     ("C04.SCSV", "quick", rule_scsv),
     ("C04.HRR", "quick", rule_hrr),
     ("C04.BINDER", "quick", rule_binder),
+    ("C04.EXPORTER", "quick", borrowed("c03", "rule_exporter", "C03.EXPORTER", "C04.EXPORTER")),
 ]
